@@ -27,8 +27,8 @@ class FCtx(object):
             r = model.resolve_name(m, name)
             if not r or r[0] != "const":
                 return None
-            if "%s.%s" % (r[2].name, r[1]) in KNOWN_CONSTS:
-                return None          # tables of the pinned tree stay loops (the rules know them as such)
+            if "%s.%s" % (r[2].name, r[1]) in KNOWN_CONSTS or any(q.split(".", 1)[1] == r[1] for q in KNOWN_CONSTS):
+                return None          # tables of the pinned tree stay loops (the rules know them as such), wherever they now live
             try:
                 return model._module_const(r[2], r[1])
             except Exception:
